@@ -10,8 +10,12 @@
   ring/ringqp/operations.go and core/rlwe/utils.go.
 
   INTEGER LEVEL (specification, Proofs/BasisExt*.lean): `hpsY`, `hpsSum`, `hpsV`, `hpsOut`,
-  `modDownRes`, `extendSmallInt`.  In theorems `v` is an explicit parameter (the float computation
-  is not modelled in proofs).
+  `modDownRes`, `centerInt`.  The limb level is PROVED to refine the integer level (Proofs/BasisExtLimb.lean,
+  BasisExtNTT.lean, BasisExtIndex.lean, BasisExtEval.lean) up to ONE named hypothesis on the float index
+  (`FidxApprox`: it is the floor of a rational within `ε` of `Σ y_i/q_i`; Lean's `Float` is opaque to the kernel).
+  `evalModDown`: twin of `rlwe.Evaluator.ModDown` (one polynomial, distinct buffers); `modDownQPtoQNTTX`: either
+  ring type.  `extendSmallLimb` = repaired limb of ringqp (C03-9); `extendSmallLimbWrap` = the unrepaired limb still
+  in `rlwe.ExtendBasisSmallNormAndCenterNTTMontgomery`.
   Core Lean only.
 -/
 import Lattigo.Gen.ModRed
